@@ -222,7 +222,10 @@ PROPS['C12']['units'].append({'template': 'convops.rs', 'rlimit': 30, 'items': [
 PROPS['C12']['proved'] += (' Operators on the wire (format/convert.rs): token_op_to_proto_op writes every unary / binary operator as the protobuf kind of the same name, with the extern-function name exactly for Ffi; '
     'proto_op_to_token_op returns the operator of the same name for exactly the (kind, ffi name) pairs of that table and a deserialization error for every other pair, an unknown kind or an empty message; the two tables are '
     'inverse of each other (lemma_unary_tables / lemma_binary_tables), so an operator means the same after a round trip.')
-PROPS['C12']['not_covered'] = PROPS['C12']['not_covered'] + ['term / predicate / rule conversion (oracles in unit convops) and the recursion into closure bodies']
+PROPS['C12']['units'].append({'template': 'convterm.rs', 'rlimit': 30, 'items': [r'^format::convert::v2::proto_id_to_token_term$']})
+PROPS['C12']['proved'] += (' Terms on the wire: proto_id_to_token_term maps every scalar to the term of the same kind and value, refuses an empty message, and accepts a set only when every element is present, is neither a variable nor a set, '
+    'and all elements have the same kind.')
+PROPS['C12']['not_covered'] = PROPS['C12']['not_covered'] + ['predicate / rule / scope conversion, the term writer, and the recursion into closure bodies and arrays (oracles in units convops / convterm)']
 PROPS['C12']['assumptions'] = PROPS['C12']['assumptions'] + ['prost: Kind::from_i32(k as i32) == Some(k) for every declared variant']
 PROPS['C16'] = {
     'units': [{'template': 'schema.rs', 'rlimit': 30, 'items': [r'^datalog::']},
@@ -261,6 +264,7 @@ PROPS['C09']['units'].append({'template': 'limits.rs', 'rlimit': 30, 'items': [r
 _NOT_PANIC = [r'::ensures\.', r'::loop\d+\.', r'::closure\d+\.', r'no_shadow']
 PROPS['C09']['units'].append({'template': 'expr.rs', 'rlimit': 30, 'items': [r'^datalog::expression::', r'^token::builder::expression::'], 'exclude_obligations': _NOT_PANIC, 'quick_canaries': ['display-unwrap']})
 PROPS['C09']['units'].append({'template': 'convops.rs', 'rlimit': 30, 'items': [r'^format::convert::v2::proto_op_to_token_op$'], 'exclude_obligations': _NOT_PANIC, 'quick_canaries': []})
+PROPS['C09']['units'].append({'template': 'convterm.rs', 'rlimit': 30, 'items': [r'^format::convert::v2::proto_id_to_token_term$'], 'exclude_obligations': _NOT_PANIC, 'quick_canaries': []})
 PROPS['C09']['units'].append({'template': 'srcconv.rs', 'rlimit': 30, 'items': [r'^token::builder::scope::']})
 PROPS['C09']['units'].append({'template': 'loadb.rs', 'rlimit': 30, 'items': _LOADB['items'], 'exclude_obligations': _NOT_PANIC, 'quick_canaries': []})
 PROPS['C09']['units'].append({'template': 'authz.rs', 'rlimit': 60, 'items': [r'^token::authorizer::Authorizer::(authorize_inner|query_inner|query_all_inner)$'], 'exclude_obligations': _NOT_PANIC, 'quick_canaries': []})
